@@ -369,6 +369,7 @@ async def _one(case, token, obs, streams=None, cancel_fn=None):
         warn_ctx = warnings.catch_warnings()
         warn_ctx.__enter__()
         warnings.simplefilter("error")
+        warnings.simplefilter("ignore", ResourceWarning)  # the harness's own streams, collected late
     try:
         res = _HUNG
         with anyio.move_on_after(guard_s + vloop.TICK):
